@@ -598,6 +598,7 @@ def main():
         for s_ in r["succ"]:
             tags(s_)
     known_exempt = []
+    # VERIF_KF: alternative known-findings file, for trying out exemptions without touching the real one
     kf_path = os.environ.get("VERIF_KF") or os.path.join(VERIF, "known_findings.json")
     if os.path.exists(kf_path):
         for e in json.load(open(kf_path)):
